@@ -26,8 +26,8 @@ CLAIMED = {
     "C12": ("proof", "Both leap-second conversions against g_spec (count -> UTC, from the property text) and its upper adjoint; monotonicity, round trip outside deleted instants, inserted second shares the next UTC value, "
             "Galois connection (the search's instant for a transition is where the lookup switches) as lemmas. Found defect F1 (negative leap second), fixed in /repo b41fc29.", "5/C12, 7", ""),
     "C13": ("proof", "TimeZoneRef::check_inputs / new: Ok exactly for well-formed zones and each error names a violated clause (zone_verdict), incl. saturating arithmetic at i64/i32 extremes; "
-            "LocalTimeType::new / TzAsciiStr::new accept exactly 3-7 characters of [A-Za-z0-9+-] and refuse i32::MIN.", "5/C13",
-            "Rule evaluator delegated to C04 (so the trailing-rule clause inherits F2's carve-out). TimeZone::new (owned) delegates to the same check_inputs: checked structurally + by the replay probe, not by Verus. "),
+            "LocalTimeType::new / TzAsciiStr::new accept exactly 3-7 characters of [A-Za-z0-9+-] and refuse i32::MIN; the owned constructor decides identically (proved).", "5/C13, S.1",
+            "Rule evaluator delegated to C04 (so the trailing-rule clause inherits F2's carve-out). The owned TimeZone::new is under Verus contract too: its verdict is the borrowed check's verdict on a zone viewing the same data. "),
     "C14": ("proof", "Representation invariant secs(fields) = unix_time + ut_offset for every constructor under contract (new, from_timespec(_and_local), from_total_nanoseconds(_and_local), project); projection keeps instant and nanoseconds; "
             "new refuses exactly invalid fields / out-of-range instants. PartialEq/PartialOrd by a complete Kani harness (thorough).", "5/C14",
             "Values built inside the local-time search (datetime/find.rs) are NOT covered (outside Verus's subset). Table lookup delegated to C03. "),
